@@ -329,6 +329,7 @@ theorem await_flat (b : Bytes) (evs : List Ev) :
         exact this
       | eof => simp [joinData, afterData]
       | quiet => simp [joinData, afterData]
+      | reset => simp [joinData, afterData]
 
 /-- two outcomes of `collect` that differ only in how the remaining input is segmented -/
 def CNext.Rel : CNext → CNext → Prop
